@@ -179,7 +179,7 @@ class C15(Prop):
         # the witness of the known finding
         yield {"k": "seg", "seg": {"k": "C", "p": [[0.000201467208, -0.000417999709], [0.0, 29.016025641462], [0.0, -5.221532497467], [0.0, 0.0]]},
                "err": 1e-6, "M": isometry(rng), "s": 2.0}
-        n = 260 if tier == "quick" else 12000
+        n = 260 if tier == "quick" else 2000
         for i in range(n):
             # the recursion's cost grows like (size/error)^(1/3) per call and each case makes four calls: small errors on
             # small curves only, the default error (1e-12) only on lines and quadratics (closed forms)
